@@ -10,6 +10,22 @@ let dispatch = function
       let perms = next_list (fun () -> next_list next_nat) in
       let rands = next_list (fun () -> next_list next_q) in
       p_opt p_res (run_nbs n xs ys thr tl paired perms rands)
+  | "nbsf" ->
+      (* the whole call: tail code, x.shape[0], x.shape[1], y.shape[0], y.shape[1], stacks, ... *)
+      let tc = next_nat () in
+      let ix = next_nat () in
+      let jx = next_nat () in
+      let iy = next_nat () in
+      let jy = next_nat () in
+      let xs = next_list (fun () -> next_mat next_q) in
+      let ys = next_list (fun () -> next_mat next_q) in
+      let thr = next_q () in
+      let paired = next_bool () in
+      let perms = next_list (fun () -> next_list next_nat) in
+      let rands = next_list (fun () -> next_list next_q) in
+      (match run_nbs_full tc ix jx iy jy xs ys thr paired perms rands with
+       | Inl e -> ps "{\"exn\":"; p_nat e; ps "}"
+       | Inr r -> p_res r)
   | "supra" ->
       let paired = next_bool () in
       let tl = next_nat () in
